@@ -81,6 +81,12 @@ GROUPS["bvd_count"]["features"] = "#![feature(allocator_api)]"
 GROUPS["bvd_misc"] = G("bvd_misc", BVD_PRELUDE, BVD_BASE + stub(BVD_CORE) + verify(["bvd.shl_in", "bvd.shr_in", "bvd.not"]))
 GROUPS["bvd_misc"]["features"] = "#![feature(allocator_api)]"
 
+GROUPS["bvd_edit"] = G("bvd_edit", BVD_PRELUDE, BVD_BASE + stub(BVD_CORE) + verify(["bvd.resize", "bvd.ones", "bvd.is_zero"]))
+GROUPS["bvd_edit"]["features"] = "#![feature(allocator_api)]"
+
+GROUPS["bvd_slice"] = G("bvd_slice", BVD_PRELUDE + ["slice_lemmas.rs"], BVD_BASE + stub(BVD_CORE) + verify(["bvd.copy_range"]))
+GROUPS["bvd_slice"]["features"] = "#![feature(allocator_api)]"
+
 # -------------------------------------------------------------------------------------------------
 # property -> jobs
 TYPES6 = ["u8", "u16", "u32", "u64", "u128", "usize"]
